@@ -552,6 +552,10 @@ func isRepoFn(f *ssa.Function) bool {
 	for f.Parent() != nil {
 		f = f.Parent()
 	}
+	// an instantiation of a generic function has no package of its own: judge it by the generic it comes from
+	if f.Pkg == nil && f.Origin() != nil {
+		f = f.Origin()
+	}
 	return f.Pkg != nil && len(f.Pkg.Pkg.Path()) >= len(repoModule) && f.Pkg.Pkg.Path()[:len(repoModule)] == repoModule
 }
 
